@@ -199,7 +199,7 @@ def _run(ctx, t0):
 
     rc = 0
     lines = []
-    replay_dir = os.path.join(VERIF, 'evidence', 'replay')
+    replay_dir = os.path.join(coq.EVIDENCE, 'replay')
     if new_viol:
         v = new_viol[0]
         path = os.path.join(replay_dir, '%s-%d.json' % (pid, ctx.seed))
@@ -237,7 +237,7 @@ def _run(ctx, t0):
         'coverage': {
             'obligations': obligations,
             'discharged': discharged,
-            'checker_cmd': 'cd /verif/coq && %s' % cmd_p,
+            'checker_cmd': 'cd %s && %s' % (coq.COQ, cmd_p),
             'trusted_base': tb,
             'evaluations': res['evaluations'],
             'distinct_nontrivial': res['distinct_nontrivial'],
@@ -256,7 +256,7 @@ def _run(ctx, t0):
         'wall_s': round(time.time() - t0, 2),
         'violations': len(new_viol) + (1 if (rc and not new_viol) else 0),
     }
-    write_json(os.path.join(VERIF, 'evidence', '%s.json' % pid), ev)
+    write_json(os.path.join(coq.EVIDENCE, '%s.json' % pid), ev)
     for line in lines:
         print(line, flush=True)
     ctx.log('done rc=%d evaluations=%d wall=%.1fs' % (rc, res['evaluations'], time.time() - t0))
